@@ -415,7 +415,7 @@ class Matrix(Qube):
         if not np.any(new_mask):
             new_mask = self._mask_
         elif self._mask_ is not False:
-            new_mask |= self._mask
+            new_mask |= self._mask_
 
         return Qube.MATRIX3_CLASS(next_m._values_, new_mask)
 
